@@ -1,5 +1,18 @@
 ---- MODULE MCKbxDevs ----
-(* the deviations of the pinned tree from the property statements of KbxProps that are open *)
-AllDevs == {"LastSymbolWins", "NoSectionBound", "LinkerMapOrder", "VersionSuffix", "GnuXorrisoBanner", "GoPrerelease", "EnvDuplicateShadow"}
+(* The deviations of the pinned tree from the property statements of KbxProps that are open.  Each is  *)
+(* a named switch: while its name is in the set the monitor is instantiated with (constant Devs of     *)
+(* KbxProps), a run that only the deviating rule explains is accepted and recorded; removing the name  *)
+(* makes such a run a VIOLATION.  See the header of KbxProps for what each one means; the check        *)
+(* tools/checks/extra_kbuild.py re-runs a pinned reproducer of each on every run and reports whether   *)
+(* it still needs the switch.                                                                           *)
+Dev_LastSymbolWins     == "LastSymbolWins"      \* CompleteRedirects: last symbol of a name wins, also when it is 0
+Dev_NoSectionBound     == "NoSectionBound"      \* CompleteRedirects: section size never compared with 16*n
+Dev_LinkerMapOrder     == "LinkerMapOrder"      \* CompileLinkerScript: substitution in Go map iteration order
+Dev_VersionSuffix      == "VersionSuffix"       \* objcopy/xorriso: distribution release suffixes rejected
+Dev_GnuXorrisoBanner   == "GnuXorrisoBanner"    \* xorriso: `GNU xorriso ...` banner rejected
+Dev_GoPrerelease       == "GoPrerelease"        \* GoVersion: goX.YbetaN / goX.YrcN invalid
+Dev_EnvDuplicateShadow == "EnvDuplicateShadow"  \* OverrideEnv: only the first of duplicate environ entries replaced
+AllDevs == {Dev_LastSymbolWins, Dev_NoSectionBound, Dev_LinkerMapOrder, Dev_VersionSuffix, Dev_GnuXorrisoBanner,
+            Dev_GoPrerelease, Dev_EnvDuplicateShadow}
 NoDevs == {}
 ====
